@@ -298,3 +298,24 @@ CHECKS["C04"] = dict(
         dict(name="overtake", test="TestKnownOvertake", kind="plain", timeout=600),
     ],
 )
+
+CHECKS["C14"] = dict(
+    pkg="c14", level="exploration",
+    engine="sim: simulated Redis Cluster with replicas; real proxy through proc.New",
+    rule=("part names: enumeration of every name of the Redis 5.0 command table (transcribed with Redis's own write/readonly flags), of the "
+          "proxy's documented tables and a few others (~230 names) x 3 letter-case variants x 3 read strategies x {0,1,2} replicas per "
+          "master, each sent with 1..3 arguments; part random: rapid-generated batches of 1..25 commands (names from those tables or "
+          "random, random letter case, 0..6 arguments, hash-tagged keys) against 1..3 masters with 0..2 replicas under a generated "
+          "read strategy. Oracle per command from the simulated nodes' logs: a name outside the documented supported set is answered by "
+          "an error and no backend logs an arrival; PING/QUIT/SELECT/INFO/TIME/HOTKEY are answered with no arrival; every arrival of a "
+          "forwarded command is at the master owning ref.Slot(key) or one of its replicas; a command Redis flags as write (and EVAL) "
+          "arrives only at that master under every strategy (an arrival at a replica that answers MOVED counts); a read-only command "
+          "arrives at a replica only under REPLICA/BOTH. Non-trivial: a real Redis command outside the supported set, or a forwarded "
+          "command on a layout with replicas under REPLICA/BOTH. Distinct by canonical JSON (names part: by construction)."),
+    assumptions=["the supported set is frozen in ref/commands.go from the proxy's tables at the pinned commit and docs/src/arch/protocol/redis/redis.md",
+                 "a read-only command kept on the master under REPLICA/BOTH is allowed (the statement only restricts what may go to replicas)"],
+    parts=[
+        dict(name="names", test="TestAllNames", kind="plain", shards=9, timeout=900, gomaxprocs=4),
+        dict(name="random", test="TestRandomCommands", kind="rapid", checks={"quick": 60, "thorough": 4000}, shards=16, timeout={"quick": 900, "thorough": 3400}, shrinktime="60s", gomaxprocs=4, crash_is_violation=True),
+    ],
+)
